@@ -95,6 +95,14 @@
        C15_clone_equal apply to Set<T,N> = Map<T,(),N> under the honest script.
 
    PARTLY COVERED / NOT COVERED BY A THEOREM
+     [UPDATE, audit: see the APPENDED SECTION at the end of this file:
+      clone composed with == in one theorem (C15_clone_compares_equal); the
+      run-relative replacement of C15_clone_ids_fresh, which env_map / env_set
+      satisfy (C15_clone_disjoint_run, C15_clone_disjoint_env_map); destruction
+      of either copy (C15_clone_destruction_independent); later changes to
+      either copy at the interpreter, every script
+      (C15_clone_then_changes_independent); the Set analogue
+      C15_clone_honest_set.]
      - independence (above): identity-level theorems (C15_clone_acct,
        C15_clone_ids_fresh, C15_clone_disjoint_from_source) + model-level
        argument for the storage + correspondence check; "arbitrary operations
@@ -223,7 +231,17 @@ Print Assumptions C15_env_set_cloneV.
 (* independence at the level of object identities (Proofs/Gaps.v).
    idK E k / idV E v are the ledger identities of a key / value object.
    HFK / HFV below: whatever Clone returns - in ANY callback state - carries no
-   identity of the list `avoid`.                                               *)
+   identity of the list `avoid`.
+   CORRECTED COMMENT (audit): HFK / HFV quantify over EVERY callback state, so
+   for a non-empty `avoid` they are UNSATISFIABLE by any environment that takes
+   new identities from a counter in the callback state - in particular by
+   env_map / env_set and by the harness.  The two theorems below therefore never
+   apply to the checked system (only to artificial environments such as
+   C15_env_fresh); they are kept for the record.  They are REPLACED by the
+   run-relative theorems of the appended section (C15_clone_disjoint_run,
+   C15_clone_disjoint_env_map, C15_clone_disjoint_env_set), whose hypothesis
+   speaks only about the identities the Clone calls of THE RUN AT HAND return
+   and is proved to hold of env_map / env_set for every script.               *)
 Theorem C15_clone_ids_fresh :
   forall (K V Q T : Type) (E : env K V Q T) (avoid : list N) (ck : K -> N) (veq : V -> V -> bool)
          (src : map K V) (w : world K V T),
@@ -415,4 +433,381 @@ Example C15_example_acct :
 Proof.
   split; [vm_compute; reflexivity|].
   intros i _ Hn. destruct i as [|[|[|i]]]; try reflexivity. exfalso. apply Hn. destruct i; reflexivity.
+Qed.
+
+(* ========================================================================== *)
+(* APPENDED SECTION — audit findings closed (Proofs/MoreEq.v)                   *)
+(*                                                                            *)
+(*  6. "and compares equal to it": clone composed with the crate's == (map_eq)  *)
+(*     in ONE theorem:  C15_clone_compares_equal (+ _map / _set instances)      *)
+(*  7. VACUITY of C15_clone_ids_fresh / C15_clone_disjoint_from_source: replaced *)
+(*     by a hypothesis relative to the run at hand, which the checked system     *)
+(*     satisfies for every script:  C15_clone_disjoint_run,                      *)
+(*     C15_clone_fresh_env_map / _set, C15_clone_disjoint_env_map / _set         *)
+(*  8. later changes to, or destruction of, either container leave the other      *)
+(*     untouched:   destruction  C15_drop_map_only_own,                          *)
+(*                               C15_clone_destruction_independent;              *)
+(*                  changes      C15_vstep_other_register_unchanged,             *)
+(*                               C15_step_other_register_unchanged,              *)
+(*                               C15_run_other_register_unchanged,               *)
+(*                               C15_clone_then_changes_independent (+ Set)      *)
+(*  9. Set analogue of C15_clone_honest_map:  C15_clone_honest_set               *)
+(* ========================================================================== *)
+Require Import Proofs.ExecSafe Proofs.ExecUniq Proofs.ExecView Proofs.MoreEq.
+
+(* -------------------------------------------------------------------------- *)
+(* 6. Hypotheses: HL lawful == on keys; HV the user's V == V computes veq and
+   never panics; HCK / HCV as in C15_clone_lawful; the original is well formed
+   with pairwise different keys; the target is Map::new() of the same capacity.
+   Conclusion: Clone returns; the clone is well formed with pairwise different
+   keys; and, run from ANY world w0, `original == clone` (the model's map_eq)
+   returns true, without panic or UB, leaving container and log of w0 untouched. *)
+Theorem C15_clone_compares_equal :
+  forall (K V Q T : Type) (E : env K V Q T) (ck : K -> N) (cq : Q -> N),
+    Lawful E ck cq ->
+    forall veq : V -> V -> bool,
+    (forall (s : T) (a b : V), fst (eqV E s a b) = (if veq a b then Yes else No)) ->
+    (forall (s : T) (k : K), exists (k' : K) (s' : T), cloneK E s k = (Some k', s') /\ ck k' = ck k) ->
+    (forall (s : T) (v : V), exists (v' : V) (s' : T), cloneV E s v = (Some v', s') /\ veq v' v = true) ->
+    forall (src : map K V) (w : world K V T),
+      WF src -> WF (self w) -> len (self w) = 0 -> cap (self w) = cap src ->
+      Uniq ck (Spec.elems src) ->
+      wp (clone_from_src E src)
+         (fun (_ : unit) (w' : world K V T) =>
+            WF (self w') /\
+            Uniq ck (Spec.elems (self w')) /\
+            (forall w0 : world K V T,
+                wp (map_eq E src (self w'))
+                   (fun (r : bool) (w1 : world K V T) => r = true /\ stable w0 w1)
+                   (fun _ : world K V T => False) w0))
+         (fun _ : world K V T => False) w.
+Proof. exact (@clone_compares_equal). Qed.
+Print Assumptions C15_clone_compares_equal.
+
+(* the same for the two environments of the correspondence check (honest script);
+   the Set twin: Set<T,N> = Map<T,(),N> *)
+Theorem C15_clone_compares_equal_map :
+  forall (sc : script) (src : map key vobj) (w : world key vobj cstate),
+    honest sc ->
+    WF src -> WF (self w) -> len (self w) = 0 -> cap (self w) = cap src ->
+    Uniq kcls (Spec.elems src) ->
+    wp (clone_from_src (env_map sc) src)
+       (fun (_ : unit) (w' : world key vobj cstate) =>
+          WF (self w') /\
+          Uniq kcls (Spec.elems (self w')) /\
+          (forall w0 : world key vobj cstate,
+              wp (map_eq (env_map sc) src (self w'))
+                 (fun (r : bool) (w1 : world key vobj cstate) => r = true /\ stable w0 w1)
+                 (fun _ : world key vobj cstate => False) w0))
+       (fun _ : world key vobj cstate => False) w.
+Proof. exact clone_compares_equal_map. Qed.
+Print Assumptions C15_clone_compares_equal_map.
+
+Theorem C15_clone_compares_equal_set :
+  forall (sc : script) (src : map key unit) (w : world key unit cstate),
+    honest sc ->
+    WF src -> WF (self w) -> len (self w) = 0 -> cap (self w) = cap src ->
+    Uniq kcls (Spec.elems src) ->
+    wp (clone_from_src (env_set sc) src)
+       (fun (_ : unit) (w' : world key unit cstate) =>
+          WF (self w') /\
+          Uniq kcls (Spec.elems (self w')) /\
+          (forall w0 : world key unit cstate,
+              wp (map_eq (env_set sc) src (self w'))
+                 (fun (r : bool) (w1 : world key unit cstate) => r = true /\ stable w0 w1)
+                 (fun _ : world key unit cstate => False) w0))
+       (fun _ : world key unit cstate => False) w.
+Proof. exact clone_compares_equal_set. Qed.
+Print Assumptions C15_clone_compares_equal_set.
+
+(* -------------------------------------------------------------------------- *)
+(* 9. FmtSerde.clone_honest_map for Set: same capacity, same length, position by
+   position an element of the same class, never panics *)
+Theorem C15_clone_honest_set :
+  forall (sc : script) (src : map key unit) (w : world key unit cstate),
+    honest sc ->
+    WF src -> WF (self w) -> len (self w) = 0 -> cap (self w) = cap src ->
+    wp (clone_from_src (env_set sc) src)
+       (fun (_ : unit) (w' : world key unit cstate) =>
+          WF (self w') /\
+          cap (self w') = cap src /\
+          len (self w') = len src /\
+          Forall2 (fun p p' : key * unit => kcls (fst p') = kcls (fst p))
+                  (Spec.elems src) (Spec.elems (self w')))
+       (fun _ : world key unit cstate => False) w.
+Proof. exact clone_honest_set. Qed.
+Print Assumptions C15_clone_honest_set.
+
+(* -------------------------------------------------------------------------- *)
+(* 7. ANY environment.  `made` is, as in C15_clone_acct, the list of identities
+   the Clone callbacks of THIS run return (clone_made replays them from the
+   callback state cb w).  Hypothesis: none of them is an identity held in a slot
+   of the original.  Conclusion on normal return: the clone owns exactly `made`,
+   nothing was destroyed, and clone and original hold NO common identity (both
+   directions).  If a Clone panics: what the unwinding destroys (d) and what is
+   left in the abandoned clone are no identities of the original either. *)
+Theorem C15_clone_disjoint_run :
+  forall (K V Q T : Type) (E : env K V Q T) (src : map K V) (w : world K V T),
+    WF src -> WF (self w) -> len (self w) = 0 -> cap (self w) = cap src -> Tidy (self w) ->
+    let made := flat_map (ids_pair E) (clone_made E src (len src) 0 (cb w)) in
+    (forall x : N, In x made -> ~ In x (owned E src)) ->
+    wp (clone_from_src E src)
+       (fun (_ : unit) (w' : world K V T) =>
+          WF (self w') /\
+          Tidy (self w') /\
+          Permutation (owned E (self w')) made /\
+          dropped (log w') = dropped (log w) /\
+          (forall x : N, In x (owned E (self w')) -> ~ In x (owned E src)) /\
+          (forall x : N, In x (owned E src) -> ~ In x (owned E (self w'))))
+       (fun w' : world K V T =>
+          exists d : list N,
+            dropped (log w') = dropped (log w) ++ d /\
+            (forall x : N, In x d -> ~ In x (owned E src)) /\
+            (forall x : N, In x (owned E (self w')) -> ~ In x (owned E src)))
+       w.
+Proof. exact (@clone_disjoint_run). Qed.
+Print Assumptions C15_clone_disjoint_run.
+
+(* The run-relative hypothesis HOLDS of the interpreter's own environments, for
+   EVERY script (honest, adversarial ==, injected Clone/Drop panics): Clone takes
+   its new identities from the counter next_id of the callback state, so it is
+   enough that the counter is above every identity the original holds (the
+   harness starts the counter at 100000, above every identity a test case
+   mentions, and only ever increments it). *)
+Theorem C15_clone_fresh_env_map :
+  forall (sc : script) (src : map key vobj) (s : cstate),
+    (forall x : N, In x (owned (env_map sc) src) -> (x < next_id s)%N) ->
+    forall x : N,
+      In x (flat_map (ids_pair (env_map sc)) (clone_made (env_map sc) src (len src) 0 s)) ->
+      ~ In x (owned (env_map sc) src).
+Proof. exact clone_fresh_env_map. Qed.
+Print Assumptions C15_clone_fresh_env_map.
+
+Theorem C15_clone_fresh_env_set :
+  forall (sc : script) (src : map key unit) (s : cstate),
+    (forall x : N, In x (owned (env_set sc) src) -> (x < next_id s)%N) ->
+    forall x : N,
+      In x (flat_map (ids_pair (env_set sc)) (clone_made (env_set sc) src (len src) 0 s)) ->
+      ~ In x (owned (env_set sc) src).
+Proof. exact clone_fresh_env_set. Qed.
+Print Assumptions C15_clone_fresh_env_set.
+
+(* ... hence, on the checked system: clone and original share no identity, and a
+   Clone panic destroys nothing of the original.  EVERY script. *)
+Theorem C15_clone_disjoint_env_map :
+  forall (sc : script) (src : map key vobj) (w : world key vobj cstate),
+    WF src -> WF (self w) -> len (self w) = 0 -> cap (self w) = cap src -> Tidy (self w) ->
+    (forall x : N, In x (owned (env_map sc) src) -> (x < next_id (cb w))%N) ->
+    wp (clone_from_src (env_map sc) src)
+       (fun (_ : unit) (w' : world key vobj cstate) =>
+          (forall x : N, In x (owned (env_map sc) (self w')) -> ~ In x (owned (env_map sc) src)) /\
+          (forall x : N, In x (owned (env_map sc) src) -> ~ In x (owned (env_map sc) (self w'))) /\
+          dropped (log w') = dropped (log w))
+       (fun w' : world key vobj cstate =>
+          exists d : list N,
+            dropped (log w') = dropped (log w) ++ d /\
+            (forall x : N, In x d -> ~ In x (owned (env_map sc) src)))
+       w.
+Proof. exact clone_disjoint_env_map. Qed.
+Print Assumptions C15_clone_disjoint_env_map.
+
+Theorem C15_clone_disjoint_env_set :
+  forall (sc : script) (src : map key unit) (w : world key unit cstate),
+    WF src -> WF (self w) -> len (self w) = 0 -> cap (self w) = cap src -> Tidy (self w) ->
+    (forall x : N, In x (owned (env_set sc) src) -> (x < next_id (cb w))%N) ->
+    wp (clone_from_src (env_set sc) src)
+       (fun (_ : unit) (w' : world key unit cstate) =>
+          (forall x : N, In x (owned (env_set sc) (self w')) -> ~ In x (owned (env_set sc) src)) /\
+          (forall x : N, In x (owned (env_set sc) src) -> ~ In x (owned (env_set sc) (self w'))) /\
+          dropped (log w') = dropped (log w))
+       (fun w' : world key unit cstate =>
+          exists d : list N,
+            dropped (log w') = dropped (log w) ++ d /\
+            (forall x : N, In x d -> ~ In x (owned (env_set sc) src)))
+       w.
+Proof. exact clone_disjoint_env_set. Qed.
+Print Assumptions C15_clone_disjoint_env_set.
+
+(* the hypotheses of C15_clone_disjoint_env_map on m3 (identities 1..6) with the
+   interpreter's initial callback state (counter 100000) - for a script that
+   makes the 2nd Clone call panic as well as for the honest one *)
+Example C15_example_counter_above :
+  owned (env_map C15_sc0) m3 = [1; 2; 3; 4; 5; 6]%N /\
+  owned (env_map (sc_clone 2)) m3 = [1; 2; 3; 4; 5; 6]%N /\
+  next_id (cb (w_of (new_map 3))) = 100000%N /\
+  (forall x : N, In x (owned (env_map C15_sc0) m3) -> (x < next_id (cb (w_of (new_map 3))))%N) /\
+  (forall x : N, In x (owned (env_map (sc_clone 2)) m3) -> (x < next_id (cb (w_of (new_map 3))))%N).
+Proof.
+  split; [reflexivity|]. split; [reflexivity|]. split; [reflexivity|].
+  split; intros x Hx; vm_compute in Hx; change (next_id (cb (w_of (new_map 3)))) with 100000%N;
+    repeat (destruct Hx as [<-|Hx]; [lia|]); destruct Hx.
+Qed.
+
+(* -------------------------------------------------------------------------- *)
+(* 8a. Destruction.  ANY environment (Drop may panic: both outcomes).  Running
+   Drop for Map on the container in [self w] destroys (d = the identities the log
+   grows by) only identities that container holds; so if it shares none with
+   `other`, nothing of `other` is destroyed. *)
+Theorem C15_drop_map_only_own :
+  forall (K V Q T : Type) (E : env K V Q T) (other : map K V) (w : world K V T),
+    WF (self w) ->
+    (forall x : N, In x (owned E (self w)) -> ~ In x (owned E other)) ->
+    let post :=
+      fun w' : world K V T =>
+        exists d : list N,
+          dropped (log w') = dropped (log w) ++ d /\
+          (forall x : N, In x d -> In x (owned E (self w))) /\
+          (forall x : N, In x d -> ~ In x (owned E other)) in
+    wp (drop_map E) (fun _ : unit => post) post w.
+Proof. exact (@drop_map_only_own). Qed.
+Print Assumptions C15_drop_map_only_own.
+
+(* Composition with 7: after a Clone that returned (w'), destroy EITHER copy, in
+   any later world w2 holding it: every identity destroyed belongs to the copy
+   being destroyed and is NOT held by the other copy - "destruction of either
+   container leaves the other untouched".  ANY environment, under the
+   run-relative hypothesis (which env_map / env_set satisfy, see above). *)
+Theorem C15_clone_destruction_independent :
+  forall (K V Q T : Type) (E : env K V Q T) (src : map K V) (w : world K V T),
+    WF src -> WF (self w) -> len (self w) = 0 -> cap (self w) = cap src -> Tidy (self w) ->
+    (forall x : N,
+        In x (flat_map (ids_pair E) (clone_made E src (len src) 0 (cb w))) -> ~ In x (owned E src)) ->
+    wp (clone_from_src E src)
+       (fun (_ : unit) (w' : world K V T) =>
+          (forall w2 : world K V T,
+              self w2 = self w' ->
+              wp (drop_map E)
+                 (fun (_ : unit) (w3 : world K V T) =>
+                    exists d : list N,
+                      dropped (log w3) = dropped (log w2) ++ d /\
+                      (forall x : N, In x d -> In x (owned E (self w')) /\ ~ In x (owned E src)))
+                 (fun w3 : world K V T =>
+                    exists d : list N,
+                      dropped (log w3) = dropped (log w2) ++ d /\
+                      (forall x : N, In x d -> In x (owned E (self w')) /\ ~ In x (owned E src))) w2) /\
+          (forall w2 : world K V T,
+              self w2 = src ->
+              wp (drop_map E)
+                 (fun (_ : unit) (w3 : world K V T) =>
+                    exists d : list N,
+                      dropped (log w3) = dropped (log w2) ++ d /\
+                      (forall x : N, In x d -> In x (owned E src) /\ ~ In x (owned E (self w'))))
+                 (fun w3 : world K V T =>
+                    exists d : list N,
+                      dropped (log w3) = dropped (log w2) ++ d /\
+                      (forall x : N, In x d -> In x (owned E src) /\ ~ In x (owned E (self w')))) w2))
+       (fun _ : world K V T => True) w.
+Proof. exact (@clone_destruction_independent). Qed.
+Print Assumptions C15_clone_destruction_independent.
+
+(* clone m3, then destroy the clone: exactly the six new objects die, none of
+   1..6; destroy the original instead: exactly 1..6 die, none of the clone's *)
+Example C15_example_destroy :
+  match clone_from_src (env_map C15_sc0) m3 (w_of (new_map 3)) with
+  | Ok _ w' =>
+      match drop_map (env_map C15_sc0) w', drop_map (env_map C15_sc0) {| cb := cb w'; log := log w'; self := m3 |} with
+      | Ok _ w3, Ok _ w4 =>
+          dropped (log w3) = [100000; 100001; 100002; 100003; 100004; 100005]%N /\
+          dropped (log w4) = [1; 2; 3; 4; 5; 6]%N
+      | _, _ => False
+      end
+  | _ => False
+  end.
+Proof. vm_compute. split; reflexivity. Qed.
+
+(* -------------------------------------------------------------------------- *)
+(* 8b. Changes.  In the model containers are VALUES: an operation runs on the
+   container in [self] and cannot reach any other container - that is
+   structural, not a theorem.  The contentful statement is about the
+   interpreter, which keeps the original and the clone in two REGISTERS and
+   writes an operation's result back:
+     m_target o / s_target o   the map / set register operation o writes back
+                               to (Some r), if any: its own register for the 51
+                               single-register operations and == ; the
+                               DESTINATION r' for OClone / OCloneFrom / OSerde
+                               (and the Set twins);
+     same_m t r  (same_s t r)  the numbers t and r name the same map (set)
+                               register (get_m / get_s decode by comparing with
+                               0 / 2);
+     not_m_target o r          r is not the map register o writes (in
+                               particular: o is a Set operation); same for sets.
+   (i) C15_vstep_other_register_unchanged: a pure fact about the specification
+       ExecView.vstep (which ExecView.step_view shows the interpreter follows
+       under an honest script): vstep o changes the contents of no register but
+       the target.
+   (ii) C15_step_other_register_unchanged: the interpreter itself, for EVERY
+       script, every state, both debug values, whatever the outcome (returned,
+       panicked, UB): every register other than the target holds afterwards
+       LITERALLY the same container (same objects, same slots).
+   (iii) C15_run_other_register_unchanged: the same for whole histories.
+   (iv) C15_clone_then_changes_independent: clone register r into r'; then ANY
+       history of operations on the clone leaves the original exactly as it
+       was, any history on the original leaves the clone exactly as it was made,
+       and the Clone itself left the original as it was. *)
+Theorem C15_vstep_other_register_unchanged :
+  forall (o : op) (vw : vworld) (r : N),
+    (not_m_target o r -> get_mv r (vstep o vw) = get_mv r vw) /\
+    (not_s_target o r -> get_sv r (vstep o vw) = get_sv r vw).
+Proof. exact vstep_other_register_unchanged. Qed.
+Print Assumptions C15_vstep_other_register_unchanged.
+
+Theorem C15_step_other_register_unchanged :
+  forall (debug : bool) (sc : script) (o : op) (x : xworld) (r : N),
+    (not_m_target o r -> get_m r (snd (step debug sc o x)) = get_m r x) /\
+    (not_s_target o r -> get_s r (snd (step debug sc o x)) = get_s r x).
+Proof. exact step_other_register_unchanged. Qed.
+Print Assumptions C15_step_other_register_unchanged.
+
+Theorem C15_run_other_register_unchanged :
+  forall (debug : bool) (sc : script) (ops : list op) (x : xworld) (r : N),
+    (Forall (fun o : op => not_m_target o r) ops -> get_m r (run_final debug sc ops x) = get_m r x) /\
+    (Forall (fun o : op => not_s_target o r) ops -> get_s r (run_final debug sc ops x) = get_s r x).
+Proof. exact run_other_register_unchanged. Qed.
+Print Assumptions C15_run_other_register_unchanged.
+
+Theorem C15_clone_then_changes_independent :
+  forall (debug : bool) (sc : script) (r r' : N) (ops : list op) (x : xworld),
+    let x1 := snd (step debug sc (OClone r r') x) in
+    (Forall (fun o : op => not_m_target o r') ops -> get_m r' (run_final debug sc ops x1) = get_m r' x1) /\
+    (Forall (fun o : op => not_m_target o r) ops -> get_m r (run_final debug sc ops x1) = get_m r x1) /\
+    (~ same_m r' r -> get_m r x1 = get_m r x).
+Proof. exact clone_then_changes_independent. Qed.
+Print Assumptions C15_clone_then_changes_independent.
+
+Theorem C15_sclone_then_changes_independent :
+  forall (debug : bool) (sc : script) (r r' : N) (ops : list op) (x : xworld),
+    let x1 := snd (step debug sc (SClone r r') x) in
+    (Forall (fun o : op => not_s_target o r') ops -> get_s r' (run_final debug sc ops x1) = get_s r' x1) /\
+    (Forall (fun o : op => not_s_target o r) ops -> get_s r (run_final debug sc ops x1) = get_s r x1) /\
+    (~ same_s r' r -> get_s r x1 = get_s r x).
+Proof. exact sclone_then_changes_independent. Qed.
+Print Assumptions C15_sclone_then_changes_independent.
+
+(* the hypotheses are satisfiable and the statement has content: clone register 0
+   (holding m3) into register 1, then clear / insert into / drain the CLONE and
+   finally destroy it (ODefault replaces it by a fresh map): register 0 still
+   holds m3 itself; and mutating the ORIGINAL leaves the clone as made *)
+Example C15_example_changes :
+  let x := {| xcb := cs0; xm0 := m3; xm1 := new_map 3; xs0 := new_map 0; xs1 := new_map 0; xdead := false |} in
+  let x1 := snd (step false C15_sc0 (OClone 0 1) x) in
+  let on_clone := [OInsert 1 (k_ 21 5) (v_ 22 0); ORemove 1 (QCls 6); OClear 1; ODefault 1] in
+  let on_orig := [OInsert 0 (k_ 21 5) (v_ 22 0); ORemove 0 (QCls 6); OClear 0] in
+  ~ same_m 1 0 /\
+  Forall (fun o : op => not_m_target o 0) on_clone /\
+  Forall (fun o : op => not_m_target o 1) on_orig /\
+  get_m 0 x1 = m3 /\
+  get_m 1 x1 = {| len := 3;
+                  slots := [Some (k_ 100000 5, v_ 100001 7); Some (k_ 100002 6, v_ 100003 8);
+                            Some (k_ 100004 7, v_ 100005 9)] |} /\
+  get_m 0 (run_final false C15_sc0 on_clone x1) = m3 /\
+  get_m 1 (run_final false C15_sc0 on_clone x1) = new_map 3 /\
+  get_m 1 (run_final false C15_sc0 on_orig x1) = get_m 1 x1 /\
+  get_m 0 (run_final false C15_sc0 on_orig x1) = new_map 3.
+Proof.
+  cbv zeta. split; [intros H; discriminate H|].
+  split; [repeat constructor; intros H; discriminate H|].
+  split; [repeat constructor; intros H; discriminate H|].
+  split; [vm_compute; reflexivity|]. split; [vm_compute; reflexivity|].
+  split; [vm_compute; reflexivity|]. split; [vm_compute; reflexivity|].
+  split; vm_compute; reflexivity.
 Qed.
